@@ -1,18 +1,40 @@
 import PyYetiVerif.Model.GenMachine
-/-! Line protocol for C08 (all floats are 16-hex-digit IEEE bit patterns, integers decimal).
+import PyYetiVerif.Model.GenMachineInit
+import PyYetiVerif.Model.GenMachineInst
+import PyYetiVerif.Model.GenMachineApi
+/-! Line protocol for C08 (all floats are 16-hex-digit IEEE bit patterns, integers decimal,
+matrices row-major, `n = nrb + nel + nrf`).
 
-  lin n nx nw nt  T[nx*nx] P[nx*n] Q[nx*n] S[nw*n]  f0[n] x0[nx]  ops…
-  cdf n k0 k r0 nr nt order  F G A B Fp Gp Ap Bp [k each] alpha[k*k] bo[k*k] ikrf[nr]
-      f0[n] d0[k] v0[k]  ops…
+Blocks
+  PART   nrb nel nrf  rb[nrb] el[nel] rf[nrf]                      (row indices of the partitions)
+  ICENV  u kel[nel] krf[nrf]  |  c kel[nel*nel] krf[nrf*nrf]        (u: uncoupled solver, diagonals)
+  OPTS   static hasd0 [d0[n]] hasv0 [v0[n]]
+  OPS    (s i f[n] | a f[n])*
+  EOM    u hasm [m[k]] b[k] kk[k]  |  c hasm [m[k*k]] b[k*k] kk[k*k]   (`_calc_acce_kdof`; k = #kdof)
+  UNC    order nt  F G A B Fp Gp Ap Bp [k each, k = nrb+nel]
+  CDF    order nt  F G A B Fp Gp Ap Bp [k each]  alpha[k*k] bo[k*k]
+  EXP2   order nt  Edd Edv Evd Evv [k*k each]  P[2k*k] Q[2k*k]  mm   (mm: n | d m[k] | f m[k*k])
+  CPX    order nt ny  G A Ap  mrb  mel  Fe Ae Be [ny re, ny im each]
+         uiv uid [ny*nel re, ny*nel im each]  rurd iurd rurv iurv [nel*ny each]
+         (mrb: n | d m[nrb] | f m[nrb*nrb];  mel likewise on the elastic rows)
+  SOLVER unc UNC | cdf CDF | exp2 EXP2 | cpx CPX
+
+Requests
+  ic   PART ICENV OPTS F0[n]
+         -> gen d[:,0] | gen v[:,0] | batch d[:,0] | batch v[:,0]        (4 × n floats, `|`-separated)
+  hist PART ICENV SOLVER OPTS F0[n] OPS
+         -> one record for the start state, then one per request, `;`-separated:
+            `col d[n] v[n] a[n] f[n]` (+ ` dmp[k] ilast` for cdf) — the column the request wrote,
+            `a` holding only what the generator itself writes there (rigid-body rows, complex
+            path) — or `err:unbound` / `err:index` (and nothing after it)
+  api  PART ICENV SOLVER EOM CALLS
+         CALLS: G nt OPTS F0[n] | S g (s i f[n] | a f[n]) | T nt OPTS force[nt*n, column by column]
+                | Z getforce | X
+         -> per call: `gen id` | `sent` | `err:kind` | `sol nt d v a [f]` (each nt*n, column by
+            column; f only for `Z 1`) | `flex`
   f2x ny n nx nw order  O[ny*(nx+nw)] Q[nx*n] S[nw*n] inj[n*ny]
-  cdff2x n k0 k r0 nr ny order  (coefficients as for cdf)  O[ny*(2k+nr)] inj[n*ny]
-
-  ops:  s i f[n]   |   a f[n]
-
-reply (lin): a record for column 0 of the start state, then one record per request, `;`-separated:  `col x[nx] r[nw] f[n]`  — the column the
-request wrote, after the request — or `err:unbound` / `err:index` (and nothing after it).
-reply (cdf): `col d[k] v[k] r[nr] f[n] dmp[k] ilast`.
-reply (f2x): ny*ny floats, row-major.   Anything unparsable: `bad-op`.  Matrices row-major. -/
+  cdff2x n k0 k r0 nr ny order  F G A B Fp Gp Ap Bp alpha bo ikrf  O[ny*(2k+nr)] inj[n*ny]
+         -> ny*ny floats.          Anything unparsable: `bad-op`. -/
 open PyYetiVerif.GenMachine
 
 structure Vec (n : Nat) where
@@ -28,6 +50,50 @@ def mulVec (r c : Nat) (m : Array Float) (x : Array Float) : Array Float :=
     (List.range c).foldl (fun acc j => acc + m[i * c + j]! * x[j]!) 0.0
 
 def diagMul (d : Array Float) (x : Array Float) : Array Float := Array.zipWith (· * ·) d x
+def scal (c : Float) (x : Array Float) : Array Float := x.map (c * ·)
+def recip (d : Array Float) : Array Float := d.map (1.0 / ·)
+
+/-- Gaussian elimination with partial pivoting: solve `A x = b` (`A` row-major `n × n`) -/
+def gaussSolve (n : Nat) (A : Array Float) (b : Array Float) : Array Float := Id.run do
+  let mut a := A
+  let mut y := b
+  for c in [0:n] do
+    let mut p := c
+    let mut best := Float.abs a[c * n + c]!
+    for r in [c + 1:n] do
+      let v := Float.abs a[r * n + c]!
+      if v > best then
+        best := v
+        p := r
+    if p ≠ c then
+      for j in [0:n] do
+        let t := a[c * n + j]!
+        a := a.set! (c * n + j) a[p * n + j]!
+        a := a.set! (p * n + j) t
+      let t := y[c]!
+      y := y.set! c y[p]!
+      y := y.set! p t
+    for r in [c + 1:n] do
+      let f := a[r * n + c]! / a[c * n + c]!
+      for j in [c:n] do
+        a := a.set! (r * n + j) (a[r * n + j]! - f * a[c * n + j]!)
+      y := y.set! r (y[r]! - f * y[c]!)
+  let mut x := Array.replicate n 0.0
+  for c' in [0:n] do
+    let c := n - 1 - c'
+    let mut s := y[c]!
+    for j in [c + 1:n] do
+      s := s - a[c * n + j]! * x[j]!
+    x := x.set! c (s / a[c * n + c]!)
+  return x
+
+/-- `M⁻ᵀ`-free right division: rows of `P @ inv(m)` (solve `mᵀ x = pᵀ` row by row) -/
+def rightSolve (rows k : Nat) (P m : Array Float) : Array Float := Id.run do
+  let mt := (Array.range (k * k)).map fun q => m[(q % k) * k + q / k]!
+  let mut out := #[]
+  for i in [0:rows] do
+    out := out ++ gaussSolve k mt (P.extract (i * k) (i * k + k))
+  return out
 
 def hexVal (ch : Char) : Option Nat :=
   if '0' ≤ ch ∧ ch ≤ '9' then some (ch.toNat - '0'.toNat)
@@ -61,125 +127,477 @@ def nat : P Nat := do
   | some n => pure n
   | none => failure
 
+def nats : Nat → P (Array Nat)
+  | 0 => pure #[]
+  | k + 1 => do let x ← nat; let r ← nats k; pure (#[x] ++ r)
+
 def flt : P Float := do
   match parseFloat (← tok) with
   | some x => pure x
   | none => failure
 
-def flts : Nat → P (Array Float)
-  | 0 => pure #[]
-  | k + 1 => do let x ← flt; let r ← flts k; pure (#[x] ++ r)
+def flts (k : Nat) : P (Array Float) := do
+  let mut out := Array.mkEmpty k
+  for _ in [0:k] do
+    out := out.push (← flt)
+  pure out
 
-partial def ops (n : Nat) : P (List (Op (Vec n))) := do
-  match (← get) with
-  | [] => pure []
-  | _ =>
-    let t ← tok
-    if t == "s" then
-      let i ← nat; let f ← flts n; let r ← ops n; pure (.send i ⟨f⟩ :: r)
-    else if t == "a" then
-      let f ← flts n; let r ← ops n; pure (.addon ⟨f⟩ :: r)
-    else failure
+def atEnd : P Bool := do pure (← get).isEmpty
+
+def peek : P (Option String) := do pure (← get).head?
 
 def errName : Err → String
   | .unbound => "err:unbound"
   | .index => "err:index"
 
-def doLin : P String := do
-  let n ← nat; let nx ← nat; let nw ← nat; let nt ← nat
-  let T ← flts (nx * nx); let Pm ← flts (nx * n); let Q ← flts (nx * n); let S ← flts (nw * n)
-  let f0 ← flts n; let x0 ← flts nx
-  let os ← ops n
-  let L : Lin (Vec n) (Vec nx) (Vec nw) :=
-    { T := fun x => ⟨mulVec nx nx T x.a⟩, P := fun f => ⟨mulVec nx n Pm f.a⟩,
-      Q := fun f => ⟨mulVec nx n Q f.a⟩, S := fun f => ⟨mulVec nw n S f.a⟩ }
-  let rec go (a : ApiState (Vec n) (Vec nx) (Vec nw)) (os : List (Op (Vec n)))
-      (acc : List String) : List String :=
+def apiErrName : ApiErr → String
+  | .unbound => "err:unbound"
+  | .index => "err:index"
+  | .stop => "err:stop"
+  | .attr => "err:attr"
+
+/-! ### partitions -/
+
+structure Part where
+  nrb : Nat
+  nel : Nat
+  nrf : Nat
+  rb : Array Nat
+  el : Array Nat
+  rf : Array Nat
+
+def Part.n (p : Part) : Nat := p.nrb + p.nel + p.nrf
+
+def gather (idx : Array Nat) (a : Array Float) : Array Float := idx.map (a[·]!)
+
+def scatterInto (a : Array Float) (idx : Array Nat) (v : Array Float) : Array Float := Id.run do
+  let mut out := a
+  for q in [0:idx.size] do
+    out := out.set! idx[q]! v[q]!
+  return out
+
+abbrev PV (p : Part) := P3 (Vec p.nrb) (Vec p.nel) (Vec p.nrf)
+
+def Part.split (p : Part) (a : Array Float) : PV p :=
+  ⟨⟨gather p.rb a⟩, ⟨gather p.el a⟩, ⟨gather p.rf a⟩⟩
+
+def Part.join (p : Part) (v : PV p) : Array Float :=
+  scatterInto (scatterInto (scatterInto (Array.replicate p.n 0.0) p.rb v.rb.a) p.el v.el.a) p.rf v.rf.a
+
+/-- rows of the non-rf partition in increasing order (the code's `nonrf` / real-path `kdof`) -/
+def Part.nonrf (p : Part) : Array Nat := (p.rb ++ p.el).qsort (· < ·)
+
+def parsePart : P Part := do
+  let nrb ← nat; let nel ← nat; let nrf ← nat
+  let rb ← nats nrb; let el ← nats nel; let rf ← nats nrf
+  pure ⟨nrb, nel, nrf, rb, el, rf⟩
+
+/-- ICENV: what `_init_dv` / the rf statements read from the solver; `unc` = `self.unc` -/
+structure EnvD (p : Part) where
+  unc : Bool
+  env : IcEnv (Vec p.nrb) (Vec p.nel) (Vec p.nrf)
+
+def parseEnv (p : Part) : P (EnvD p) := do
+  let mode ← tok
+  let anyNz : Vec p.nel → Bool := fun f => f.a.any (· != 0.0)
+  if mode == "u" then
+    let kel ← flts p.nel; let krf ← flts p.nrf
+    let ikrf := recip krf
+    let env : IcEnv (Vec p.nrb) (Vec p.nel) (Vec p.nrf) :=
+      { hasEl := (p.nel != 0)
+        anyNz := anyNz
+        solveEl := fun f => ⟨Array.zipWith (· / ·) f.a kel⟩
+        ikrf := fun f => ⟨diagMul ikrf f.a⟩ }
+    pure ⟨true, env⟩
+  else if mode == "c" then
+    let kel ← flts (p.nel * p.nel); let krf ← flts (p.nrf * p.nrf)
+    let env : IcEnv (Vec p.nrb) (Vec p.nel) (Vec p.nrf) :=
+      { hasEl := (p.nel != 0)
+        anyNz := anyNz
+        solveEl := fun f => ⟨gaussSolve p.nel kel f.a⟩
+        ikrf := fun f => ⟨gaussSolve p.nrf krf f.a⟩ }
+    pure ⟨false, env⟩
+  else failure
+
+def parseOpts (p : Part) : P (IcOpts (Vec p.nrb) (Vec p.nel) (Vec p.nrf)) := do
+  let st ← nat
+  let hd ← nat
+  let d0 ← if hd == 1 then do let a ← flts p.n; pure (some (p.split a)) else pure none
+  let hv ← nat
+  let v0 ← if hv == 1 then do let a ← flts p.n; pure (some (p.split a)) else pure none
+  pure ⟨d0, v0, st == 1⟩
+
+partial def parseOps (p : Part) : P (List (Op (PV p))) := do
+  match (← peek) with
+  | some "s" =>
+    let _ ← tok; let i ← nat; let f ← flts p.n; let r ← parseOps p; pure (.send i (p.split f) :: r)
+  | some "a" =>
+    let _ ← tok; let f ← flts p.n; let r ← parseOps p; pure (.addon (p.split f) :: r)
+  | _ => pure []
+
+/-! ### solvers -/
+
+/-- a solver ready to run: the generator's step on arbitrary requests (the concrete transcription),
+the `Lin` it is an instance of, the start state, `tsolve`'s first column, and how a column of the
+machine is laid out in the `n`-row arrays `d, v, a` -/
+structure Sol (p : Part) where
+  X : Type
+  W : Type
+  addX : Add X
+  addW : Add W
+  L : Lin (PV p) X W
+  stepApiC : Nat → ApiState (PV p) X W → Op (PV p) → Except Err (ApiState (PV p) X W)
+  start : IcOpts (Vec p.nrb) (Vec p.nel) (Vec p.nrf) → PV p → State (PV p) X W
+  x0 : IcOpts (Vec p.nrb) (Vec p.nel) (Vec p.nrf) → (Nat → PV p) → X
+  /-- (d column, v column, rows of the a column the generator writes) -/
+  cols : X → W → Array Float × Array Float × Array Float
+  /-- kdof rows and the (d, v) on them, for `_calc_acce_kdof` -/
+  kdof : Array Nat
+  dvk : X → Array Float × Array Float
+  nt : Nat
+  order1 : Bool
+
+def rfS (p : Part) (e : EnvD p) : PV p → Vec p.nrf := fun f => e.env.ikrf f.rf
+
+/-- real paths: state = non-rf rows of d, v; static rows = d[rf] -/
+def realView (p : Part) : View (PV p) (DV (Vec (p.nrb + p.nel))) (Vec p.nrf) :=
+  { x := fun d v => ⟨⟨gather p.nonrf (p.join d)⟩, ⟨gather p.nonrf (p.join v)⟩⟩
+    r := fun d _ => d.rf }
+
+def realCols (p : Part) (x : DV (Vec (p.nrb + p.nel))) (r : Vec p.nrf) :
+    Array Float × Array Float × Array Float :=
+  let z := Array.replicate p.n 0.0
+  (scatterInto (scatterInto z p.nonrf x.d.a) p.rf r.a, scatterInto z p.nonrf x.v.a, z)
+
+def parseUnc (p : Part) (e : EnvD p) (kont : Sol p → P String) : P String := do
+  let order ← nat; let nt ← nat
+  let k := p.nrb + p.nel
+  let F ← flts k; let G ← flts k; let A ← flts k; let B ← flts k
+  let Fp ← flts k; let Gp ← flts k; let Ap ← flts k; let Bp ← flts k
+  let dm (d : Array Float) : Vec k → Vec k := fun x => ⟨diagMul d x.a⟩
+  let AB := Array.zipWith (· + ·) A B
+  let ABp := Array.zipWith (· + ·) Ap Bp
+  let c : UncCoef (PV p) (Vec k) (Vec p.nrf) :=
+    { F := dm F, G := dm G, A := dm A, B := dm B, Fp := dm Fp, Gp := dm Gp, Ap := dm Ap,
+      Bp := dm Bp, AB := dm AB, ABp := dm ABp, K := fun f => ⟨gather p.nonrf (p.join f)⟩,
+      S := rfS p e, order1 := order == 1 }
+  let vw := realView p
+  kont { X := DV (Vec k), W := Vec p.nrf, addX := inferInstance, addW := inferInstance, L := uncLin c, stepApiC := uncStepApi c,
+         start := genStart e.env vw, x0 := batchX0 e.env vw, cols := realCols p,
+         kdof := p.nonrf, dvk := fun x => (x.d.a, x.v.a), nt := nt, order1 := c.order1 }
+
+def parseExp2 (p : Part) (e : EnvD p) (kont : Sol p → P String) : P String := do
+  let order ← nat; let nt ← nat
+  let k := p.nrb + p.nel
+  let Edd ← flts (k * k); let Edv ← flts (k * k); let Evd ← flts (k * k); let Evv ← flts (k * k)
+  let Pm ← flts (2 * k * k); let Qm ← flts (2 * k * k)
+  let mm ← tok
+  let (Ps, Qs) ←
+    if mm == "n" then pure (Pm, Qm)
+    else if mm == "d" then do
+      let m ← flts k
+      let invm := recip m
+      let sc (M : Array Float) : Array Float :=
+        (Array.range (2 * k * k)).map fun q => M[q]! * invm[q % k]!
+      pure (sc Pm, sc Qm)
+    else if mm == "f" then do
+      let m ← flts (k * k)
+      pure (rightSolve (2 * k) k Pm m, rightSolve (2 * k) k Qm m)
+    else failure
+  let mv (M : Array Float) : Vec k → Vec k := fun x => ⟨mulVec k k M x.a⟩
+  let pq (M : Array Float) : Vec k → DV (Vec k) := fun f =>
+    let y := mulVec (2 * k) k M f.a
+    ⟨⟨y.extract k (2 * k)⟩, ⟨y.extract 0 k⟩⟩
+  let c : Exp2Coef (PV p) (Vec k) (Vec p.nrf) :=
+    { Edd := mv Edd, Edv := mv Edv, Evd := mv Evd, Evv := mv Evv, P := pq Ps, Q := pq Qs,
+      K := fun f => ⟨gather p.nonrf (p.join f)⟩, S := rfS p e, order1 := order == 1 }
+  let vw := realView p
+  kont { X := DV (Vec k), W := Vec p.nrf, addX := inferInstance, addW := inferInstance, L := exp2Lin c, stepApiC := exp2StepApi c,
+         start := genStart e.env vw, x0 := batchX0 e.env vw, cols := realCols p,
+         kdof := p.nonrf, dvk := fun x => (x.d.a, x.v.a), nt := nt, order1 := c.order1 }
+
+/-- complex vectors as (re, im) -/
+structure CVec (n : Nat) where
+  re : Array Float
+  im : Array Float
+
+instance {n : Nat} : Add (CVec n) :=
+  ⟨fun x y => ⟨Array.zipWith (· + ·) x.re y.re, Array.zipWith (· + ·) x.im y.im⟩⟩
+
+def cmul {n : Nat} (c x : CVec n) : CVec n :=
+  ⟨(Array.range n).map fun i => c.re[i]! * x.re[i]! - c.im[i]! * x.im[i]!,
+   (Array.range n).map fun i => c.re[i]! * x.im[i]! + c.im[i]! * x.re[i]!⟩
+
+def parseCVec (n : Nat) : P (CVec n) := do
+  let re ← flts n; let im ← flts n; pure ⟨re, im⟩
+
+/-- `n`: identity; `d m[k]`: `(1/m) * ·`; `f m[k*k]`: solve -/
+def parseMassSolve (k : Nat) : P (Array Float → Array Float) := do
+  let mm ← tok
+  if mm == "n" then pure id
+  else if mm == "d" then do
+    let m ← flts k
+    let im := recip m
+    pure (diagMul im)
+  else if mm == "f" then do
+    let m ← flts (k * k)
+    pure (gaussSolve k m)
+  else failure
+
+def parseCpx (p : Part) (e : EnvD p) (kont : Sol p → P String) : P String := do
+  let order ← nat; let nt ← nat; let ny ← nat
+  let G ← flt; let A ← flt; let Ap ← flt
+  let imrb ← parseMassSolve p.nrb
+  let invm ← parseMassSolve p.nel
+  let Fe ← parseCVec ny; let Ae ← parseCVec ny; let Be ← parseCVec ny
+  let uivRe ← flts (ny * p.nel); let uivIm ← flts (ny * p.nel)
+  let uidRe ← flts (ny * p.nel); let uidIm ← flts (ny * p.nel)
+  let rurd ← flts (p.nel * ny); let iurd ← flts (p.nel * ny)
+  let rurv ← flts (p.nel * ny); let iurv ← flts (p.nel * ny)
+  let cm (re im : Array Float) : Vec p.nel → CVec ny := fun x =>
+    ⟨mulVec ny p.nel re x.a, mulVec ny p.nel im x.a⟩
+  let rec_ (r i : Array Float) : CVec ny → Vec p.nel := fun y =>
+    ⟨Array.zipWith (· - ·) (mulVec p.nel ny r y.re) (mulVec p.nel ny i y.im)⟩
+  let sR (c : Float) : Vec p.nrb → Vec p.nrb := fun x => ⟨scal c x.a⟩
+  let AeBe : CVec ny := Ae + Be
+  let c : CplxCoef (Vec p.nrb) (Vec p.nel) (Vec p.nrf) (CVec ny) :=
+    { G := sR G, A := sR A, Ap := sR Ap, A0 := sR (1.5 * A), Ap0 := sR (2.0 * Ap), half := sR 0.5,
+      imrb := fun x => ⟨imrb x.a⟩, invm := fun x => ⟨invm x.a⟩, uiv := cm uivRe uivIm,
+      uid := cm uidRe uidIm, Fe := cmul Fe, Ae := cmul Ae, Be := cmul Be, AeBe := cmul AeBe,
+      recD := rec_ rurd iurd, recV := rec_ rurv iurv, ikrf := e.env.ikrf, order1 := order == 1 }
+  let vw : View (PV p) (CX (Vec p.nrb) (Vec p.nel)) (CW (Vec p.nrb) (Vec p.nrf)) :=
+    { x := fun d v => ⟨d.rb, v.rb, d.el, v.el⟩, r := fun d a => ⟨d.rf, a.rb⟩ }
+  let z := Array.replicate p.n 0.0
+  kont { X := CX (Vec p.nrb) (Vec p.nel), W := CW (Vec p.nrb) (Vec p.nrf), addX := inferInstance,
+         addW := inferInstance, L := cplxLin c,
+         stepApiC := cplxStepApi c, start := cplxGenStart e.env c.imrb vw, x0 := batchX0 e.env vw,
+         cols := fun x r =>
+           (scatterInto (scatterInto (scatterInto z p.rb x.drb.a) p.el x.del.a) p.rf r.rf.a,
+            scatterInto (scatterInto z p.rb x.vrb.a) p.el x.vel.a, scatterInto z p.rb r.arb.a),
+         kdof := p.el, dvk := fun x => (x.del.a, x.vel.a), nt := nt, order1 := c.order1 }
+
+/-! ### history requests -/
+
+def fmtCol {p : Part} (S : Sol p) (s : State (PV p) S.X S.W) (c : Nat) : String :=
+  let (d, v, a) := S.cols (s.x c) (s.r c)
+  s!"{c} {fmtVec d} {fmtVec v} {fmtVec a} {fmtVec (p.join (s.force c))}"
+
+def runHist {p : Part} (S : Sol p) (s0 : State (PV p) S.X S.W) (os : List (Op (PV p))) : String :=
+  let rec go (a : ApiState (PV p) S.X S.W) (os : List (Op (PV p))) (acc : List String) :
+      List String :=
     match os with
     | [] => acc.reverse
     | op :: rest =>
-      match stepApi L nt a op with
+      match S.stepApiC S.nt a op with
       | .error e => (errName e :: acc).reverse
-      | .ok a' =>
-        let c := a'.s.cur
-        go a' rest
-          (s!"{c} {fmtVec (a'.s.x c).a} {fmtVec (a'.s.r c).a} {fmtVec (a'.s.force c).a}" :: acc)
-  let s0 := init L ⟨f0⟩ ⟨x0⟩
-  pure (";".intercalate (go ⟨false, s0⟩ os
-    [s!"0 {fmtVec (s0.x 0).a} {fmtVec (s0.r 0).a} {fmtVec (s0.force 0).a}"]))
+      | .ok a' => go a' rest (fmtCol S a'.s a'.s.cur :: acc)
+  ";".intercalate (go ⟨false, s0⟩ os [fmtCol S s0 0])
 
-def slice (a : Array Float) (s k : Nat) : Array Float := a.extract s (s + k)
-
-def cdfCoef (n k0 k r0 nr order : Nat) : P (CdfCoef (Vec n) (Vec k) (Vec nr)) := do
+def parseCdfCoef (p : Part) (e : EnvD p) :
+    P (Nat × CdfCoef (PV p) (Vec (p.nrb + p.nel)) (Vec p.nrf)) := do
+  let order ← nat; let nt ← nat
+  let k := p.nrb + p.nel
   let F ← flts k; let G ← flts k; let A ← flts k; let B ← flts k
   let Fp ← flts k; let Gp ← flts k; let Ap ← flts k; let Bp ← flts k
-  let alpha ← flts (k * k); let bo ← flts (k * k); let ikrf ← flts nr
+  let alpha ← flts (k * k); let bo ← flts (k * k)
   let dm (d : Array Float) : Vec k → Vec k := fun x => ⟨diagMul d x.a⟩
-  pure
+  pure (nt,
     { F := dm F, G := dm G, A := dm A, B := dm B, Fp := dm Fp, Gp := dm Gp, Ap := dm Ap,
       Bp := dm Bp, alpha := fun x => ⟨mulVec k k alpha x.a⟩, bo := fun x => ⟨mulVec k k bo x.a⟩,
-      K := fun f => ⟨slice f.a k0 k⟩, S := fun f => ⟨diagMul ikrf (slice f.a r0 nr)⟩,
-      order1 := order == 1 }
+      K := fun f => ⟨gather p.nonrf (p.join f)⟩, S := rfS p e, order1 := order == 1 })
 
-def doCdf : P String := do
-  let n ← nat; let k0 ← nat; let k ← nat; let r0 ← nat; let nr ← nat; let nt ← nat
-  let order ← nat
-  let c ← cdfCoef n k0 k r0 nr order
-  let f0 ← flts n; let d0 ← flts k; let v0 ← flts k
-  let os ← ops n
-  let rec go (a : CdfApiState (Vec n) (Vec k) (Vec nr)) (os : List (Op (Vec n)))
+/-- the cd-as-force solver for the API / get_f2x requests: the cache-free one-step map `cdfLin`
+(`cdf_cache_sound`: the generator with its cache equals it) -/
+def parseCdfSol (p : Part) (e : EnvD p) (kont : Sol p → P String) : P String := do
+  let (nt, c) ← parseCdfCoef p e
+  let vw := realView p
+  kont { X := DV (Vec (p.nrb + p.nel)), W := Vec p.nrf, addX := inferInstance,
+         addW := inferInstance, L := cdfLin c, stepApiC := stepApi (cdfLin c),
+         start := genStart e.env vw, x0 := batchX0 e.env vw, cols := realCols p,
+         kdof := p.nonrf, dvk := fun x => (x.d.a, x.v.a), nt := nt, order1 := c.order1 }
+
+/-- the cd-as-force generator keeps its own state type (hidden cache) -/
+def doHistCdf (p : Part) (e : EnvD p) : P String := do
+  let (nt, c) ← parseCdfCoef p e
+  let k := p.nrb + p.nel
+  let o ← parseOpts p
+  let f0 ← flts p.n
+  let os ← parseOps p
+  if !(← atEnd) then failure
+  let A0 := initDvaPart e.env o (p.split f0)
+  let d0 : Vec k := ⟨gather p.nonrf (p.join (A0.d 0))⟩
+  let v0 : Vec k := ⟨gather p.nonrf (p.join (A0.v 0))⟩
+  let fmt (s : CdfState (PV p) (Vec k) (Vec p.nrf)) (i : Nat) : String :=
+    let (d, v, a) := realCols p ⟨s.d i, s.v i⟩ (s.r i)
+    s!"{i} {fmtVec d} {fmtVec v} {fmtVec a} {fmtVec (p.join (s.force i))} {fmtVec s.dmp.a} {s.ilast}"
+  let rec go (a : CdfApiState (PV p) (Vec k) (Vec p.nrf)) (os : List (Op (PV p)))
       (acc : List String) : List String :=
     match os with
     | [] => acc.reverse
     | op :: rest =>
       match cdfStepApi c nt a op with
       | .error e => (errName e :: acc).reverse
-      | .ok a' =>
-        let s := a'.s
-        let i := s.cur
-        go a' rest
-          (s!"{i} {fmtVec (s.d i).a} {fmtVec (s.v i).a} {fmtVec (s.r i).a} {fmtVec (s.force i).a} {fmtVec s.dmp.a} {s.ilast}" :: acc)
-  let s0 := cdfInit c ⟨f0⟩ ⟨d0⟩ ⟨v0⟩
-  pure (";".intercalate (go ⟨false, s0⟩ os
-    [s!"0 {fmtVec (s0.d 0).a} {fmtVec (s0.v 0).a} {fmtVec (s0.r 0).a} {fmtVec (s0.force 0).a} {fmtVec s0.dmp.a} {s0.ilast}"]))
+      | .ok a' => go a' rest (fmt a'.s a'.s.cur :: acc)
+  -- `_init_dva_part` also sets the rf rows of column 0
+  let s0 := cdfInit c (p.split f0) d0 v0
+  let s0 := { s0 with r := upd s0.r 0 (A0.d 0).rf }
+  pure (";".intercalate (go ⟨false, s0⟩ os [fmt s0 0]))
 
-def unitCols {n ny : Nat} (g : Vec ny → Vec n) : List (Array Float) :=
-  (List.range ny).map fun j =>
-    (g ⟨(Array.range ny).map fun i => if i = j then 1.0 else 0.0⟩).a
+def parseSol (p : Part) (e : EnvD p) (kind : String) (kont : Sol p → P String) : P String :=
+  if kind == "unc" then parseUnc p e kont
+  else if kind == "exp2" then parseExp2 p e kont
+  else if kind == "cpx" then parseCpx p e kont
+  else if kind == "cdf" then parseCdfSol p e kont
+  else failure
 
-def fmtCols (ny : Nat) (cols : List (Array Float)) : String :=
-  " ".intercalate ((List.range ny).map fun i => fmtVec ((cols.map fun c => c[i]!).toArray))
+def doHist : P String := do
+  let p ← parsePart
+  let e ← parseEnv p
+  let kind ← tok
+  if kind == "cdf" then doHistCdf p e
+  else
+    parseSol p e kind fun S => do
+      let o ← parseOpts p
+      let f0 ← flts p.n
+      let os ← parseOps p
+      if !(← atEnd) then failure
+      pure (runHist S (S.start o (p.split f0)) os)
 
-/-- `cdff2x n k0 k r0 nr ny order  coefficients…  O[ny*(2k+nr)] inj[n*ny]` -/
-def doCdfF2x : P String := do
-  let n ← nat; let k0 ← nat; let k ← nat; let r0 ← nat; let nr ← nat; let ny ← nat
-  let order ← nat
-  let c ← cdfCoef n k0 k r0 nr order
-  let O ← flts (ny * (2 * k + nr)); let inj ← flts (n * ny)
-  let obs : DV (Vec k) → Vec nr → Vec ny :=
-    fun x r => ⟨mulVec ny (2 * k + nr) O (x.d.a ++ x.v.a ++ r.a)⟩
-  let injF : Vec ny → Vec n := fun g => ⟨mulVec n ny inj g.a⟩
-  pure (fmtCols ny (unitCols (apiF2x c.order1 (cdfLin c) obs injF)))
+/-- `ic`: the first column by the two code paths -/
+def doIc : P String := do
+  let p ← parsePart
+  let e ← parseEnv p
+  let o ← parseOpts p
+  let f0 ← flts p.n
+  if !(← atEnd) then failure
+  let g := initDvaPart e.env o (p.split f0)
+  let b := initDva e.env o (fun j => if j = 0 then p.split f0 else 0)
+  pure (" | ".intercalate
+    [fmtVec (p.join (g.d 0)), fmtVec (p.join (g.v 0)), fmtVec (p.join (b.d 0)), fmtVec (p.join (b.v 0))])
 
+/-! ### API call sequences -/
+
+/-- EOM block → `_calc_acce_kdof` on `k` kdof rows -/
+def parseEom (k : Nat) : P (Array Float → Array Float → Array Float → Array Float) := do
+  let mode ← tok
+  let hasm ← nat
+  if mode == "u" then
+    let m ← if hasm == 1 then flts k else pure #[]
+    let b ← flts k; let kk ← flts k
+    let invm := recip m
+    pure fun d v f =>
+      let y := Array.zipWith (· - ·) (Array.zipWith (· - ·) f (diagMul b v)) (diagMul kk d)
+      if hasm == 1 then diagMul invm y else y
+  else if mode == "c" then
+    let m ← if hasm == 1 then flts (k * k) else pure #[]
+    let b ← flts (k * k); let kk ← flts (k * k)
+    pure fun d v f =>
+      let y := Array.zipWith (· - ·) (Array.zipWith (· - ·) f (mulVec k k b v)) (mulVec k k kk d)
+      if hasm == 1 then gaussSolve k m y else y
+  else failure
+
+partial def parseCalls (p : Part) :
+    P (List (Call (PV p) (IcOpts (Vec p.nrb) (Vec p.nel) (Vec p.nrf)) Unit)) := do
+  match (← peek) with
+  | none => pure []
+  | some t =>
+    let _ ← tok
+    let c ←
+      if t == "G" then do
+        let nt ← nat; let o ← parseOpts p; let f0 ← flts p.n
+        pure (Call.generator nt o (p.split f0))
+      else if t == "S" then do
+        let g ← nat
+        let k ← tok
+        if k == "s" then do
+          let i ← nat; let f ← flts p.n; pure (Call.send g (.send i (p.split f)))
+        else if k == "a" then do
+          let f ← flts p.n; pure (Call.send g (.addon (p.split f)))
+        else failure
+      else if t == "T" then do
+        let nt ← nat; let o ← parseOpts p
+        let mut cols : Array (PV p) := #[]
+        for _ in [0:nt] do
+          cols := cols.push (p.split (← flts p.n))
+        pure (Call.tsolve nt o (fun j => if h : j < cols.size then cols[j] else 0))
+      else if t == "Z" then do
+        let g ← nat; pure (Call.finalize (g == 1))
+      else if t == "X" then pure (Call.getF2x ())
+      else failure
+    let r ← parseCalls p
+    pure (c :: r)
+
+def fmtOut {p : Part} (S : Sol p) :
+    Out (PV p) S.X S.W (Vec S.kdof.size) Unit → String
+  | .gen id x0 r0 =>
+    let (d, v, a) := S.cols x0 r0
+    s!"gen {id} {fmtVec d} {fmtVec v} {fmtVec a}"
+  | .sent c x r f =>
+    let (d, v, a) := S.cols x r
+    s!"sent {c} {fmtVec d} {fmtVec v} {fmtVec a} {fmtVec (p.join f)}"
+  | .err er => apiErrName er
+  | .flex _ => "flex"
+  | .sol r =>
+    let cols := (List.range r.nt).map fun j =>
+      let (x, w, a) := r.cols j
+      let (d, v, a0) := S.cols x w
+      (d, v, scatterInto a0 S.kdof a.a)
+    let cat (sel : Array Float × Array Float × Array Float → Array Float) : String :=
+      " ".intercalate (cols.map fun c => fmtVec (sel c))
+    let f := match r.force with
+      | some f => " " ++ " ".intercalate ((List.range r.nt).map fun j => fmtVec (p.join (f j)))
+      | none => ""
+    s!"sol {r.nt} {cat (·.1)} {cat (·.2.1)} {cat (·.2.2)}{f}"
+
+def doApi : P String := do
+  let p ← parsePart
+  let e ← parseEnv p
+  let kind ← tok
+  parseSol p e kind fun S => do
+    let eom ← parseEom S.kdof.size
+    let calls ← parseCalls p
+    let acc : S.X → PV p → Vec S.kdof.size := fun x f =>
+      let (d, v) := S.dvk x
+      ⟨eom d v (gather S.kdof (p.join f))⟩
+    let solver : Solver (PV p) S.X S.W (Vec S.kdof.size)
+        (IcOpts (Vec p.nrb) (Vec p.nel) (Vec p.nrf)) Unit Unit :=
+      { L := S.L, start := S.start, x0 := S.x0, acc := acc, f2x := fun _ => () }
+    letI := S.addX
+    letI := S.addW
+    let outs := (objRun solver Obj.new calls).2
+    pure (";".intercalate (outs.map (fmtOut S)))
+
+/-! ### get_f2x -/
+
+/-- `f2x PART ICENV SOLVER velo ny phi[ny*n]`: column `j` of the transform is `apiF2x` of the
+solver's own one-step map applied to the `j`-th unit interface force, mapped in by `phi.T` and
+read out by `phi @ d[:, i]` (or `phi @ v[:, i]`) -/
 def doF2x : P String := do
-  let ny ← nat; let n ← nat; let nx ← nat; let nw ← nat; let order ← nat
-  let O ← flts (ny * (nx + nw)); let Q ← flts (nx * n); let S ← flts (nw * n)
-  let inj ← flts (n * ny)
-  let L : Lin (Vec n) (Vec nx) (Vec nw) :=
-    { T := id, P := fun _ => 0, Q := fun f => ⟨mulVec nx n Q f.a⟩,
-      S := fun f => ⟨mulVec nw n S f.a⟩ }
-  let obs : Vec nx → Vec nw → Vec ny := fun x r => ⟨mulVec ny (nx + nw) O (x.a ++ r.a)⟩
-  let injF : Vec ny → Vec n := fun g => ⟨mulVec n ny inj g.a⟩
-  -- column j of the transform = f2x applied to the j-th unit interface force
-  pure (fmtCols ny (unitCols (apiF2x (order == 1) L obs injF)))
+  let p ← parsePart
+  let e ← parseEnv p
+  let kind ← tok
+  parseSol p e kind fun S => do
+    let velo ← nat; let ny ← nat
+    let phi ← flts (ny * p.n)
+    if !(← atEnd) then failure
+    let obs : S.X → S.W → Vec ny := fun x r =>
+      let (d, v, _) := S.cols x r
+      ⟨mulVec ny p.n phi (if velo == 1 then v else d)⟩
+    let inj : Vec ny → PV p := fun g =>
+      p.split ((Array.range p.n).map fun c =>
+        (List.range ny).foldl (fun acc r => acc + phi[r * p.n + c]! * g.a[r]!) 0.0)
+    let cols := (List.range ny).map fun j =>
+      (apiF2x S.order1 S.L obs inj ⟨(Array.range ny).map fun i => if i = j then 1.0 else 0.0⟩).a
+    pure (" ".intercalate ((List.range ny).map fun i =>
+      fmtVec ((cols.map fun c => c[i]!).toArray)))
 
 def answer (line : String) : String :=
   let ws := (line.splitOn " ").filter (· ≠ "")
   let r : Option (String × List String) := match ws with
-    | "lin" :: rest => doLin.run rest
-    | "cdf" :: rest => doCdf.run rest
+    | "ic" :: rest => doIc.run rest
+    | "hist" :: rest => doHist.run rest
+    | "api" :: rest => doApi.run rest
     | "f2x" :: rest => doF2x.run rest
-    | "cdff2x" :: rest => doCdfF2x.run rest
     | _ => none
   match r with
   | some (s, _) => s
